@@ -1,4 +1,5 @@
 import io
+import re
 from typing import List, Any, IO, TYPE_CHECKING
 
 from .ansi import AnsiDecoder
@@ -6,6 +7,9 @@ from .text import Text
 
 if TYPE_CHECKING:
     from .console import Console
+
+
+_RE_UNFINISHED_ESCAPE = re.compile(r"\x1b(?:\[[0-?]*[ -/]*|\][^\x07\x1b]*\x1b?)?$")
 
 
 class FileProxy(io.TextIOBase):
@@ -50,6 +54,15 @@ class FileProxy(io.TextIOBase):
     def flush(self) -> None:
         buffer = self.__buffer
         if buffer:
-            output = self.__ansi_decoder.decode_line("".join(buffer))
-            self.__console.print(output, markup=False, emoji=False, highlight=False)
+            pending = "".join(buffer)
             del buffer[:]
+            # an escape sequence cut short by the last write stays pending until the rest arrives
+            cut = _RE_UNFINISHED_ESCAPE.search(pending)
+            if cut is not None:
+                buffer.append(cut.group(0))
+                pending = pending[: cut.start()]
+            if pending:
+                output = self.__ansi_decoder.decode_line(pending)
+                self.__console.print(
+                    output, markup=False, emoji=False, highlight=False
+                )
